@@ -1019,7 +1019,7 @@ def r7(ctx):
         for f0 in sorted(ctx.index.all_functions(m), key=lambda x: x.key):
             if f0.type_only or f0.is_overload:
                 continue
-            if not any(_callee_last(c) in acc for c in calls_in(f0.node)):
+            if not any(_accepts_token(ctx, c, acc, f0) for c in calls_in(f0.node)):
                 continue
             # helper-inlined, alias-resolved form: `pk, tok = self._split(key)` / `k = state.key` are read where they are used
             F = nf(ctx, f0, keep=set(acc), inline=True, alias="dotted")      # the lookups themselves are never inlined
